@@ -449,3 +449,8 @@ B('C16.vector-composed-sorted', ['C16', 'C01'], [(P + 'common/base.py',
   "    def compose(self):\n        body_composer = ComposerBinary()\n        body_composer.compose_parsable_array(self._items)\n\n        header_composer = ComposerBinary()\n        header_composer.compose_numeric(body_composer.composed_length, self.param.item_num_size)\n\n        return header_composer.composed_bytes + body_composer.composed_bytes\n\n\nclass VectorEnumCodeNumeric",
   "    def compose(self):\n        body_composer = ComposerBinary()\n        body_composer.compose_parsable_array(sorted(self._items, key=lambda item: item.compose()))\n\n        header_composer = ComposerBinary()\n        header_composer.compose_numeric(body_composer.composed_length, self.param.item_num_size)\n\n        return header_composer.composed_bytes + body_composer.composed_bytes\n\n\nclass VectorEnumCodeNumeric")],
   mention=['wire order'])
+# quoted components: the class must accept the quoted spelling it writes (the base64 decoder used to drop the quotes silently)
+B('C18.base64-component-strict', ['C18'], [(P + 'common/field.py', "        return Base64Data(base64.b64decode(value))",
+  "        return Base64Data(base64.b64decode(value, validate=True))")], mention=['C18.R12', 'composed'])
+N('benign.base64-component-strips-quotes', [(P + 'common/field.py', "        return Base64Data(base64.b64decode(value))",
+  "        return Base64Data(base64.b64decode(value.strip('\"'), validate=True))")])
